@@ -17,10 +17,10 @@ func init() {
 		DesignRef: "DESIGN.md §5 C08",
 		Level: "Decides the class-segregation part: the set of hint predicates that keep a block out of the WAL replay cutoff is exactly the set that metadata merging and head-block writing propagate (each From* with its own Set*, the out-of-order hint only if every source has it), the planner partitions on exactly the two partial-view hints, " +
 			"hands planClass either one of the partitions or — only on the arm where at most one partition is non-empty — the whole input, nobody else calls planClass, and planClass looks for overlaps first, then drops the newest block before choosing a range group and skips groups with a failed block. Also decides that range groups respect their window: splitByRange lets a block join the group of an aligned window only while it ends inside the window (the break and skip tests in linear normal form), and the window start is the aligned start containing the first block (rounded down for negative times).",
-		Note:     "Trusted: go/packages, go/types, go/cfg; rule tables in checker/c08.go.",
-		Covers:   "LeveledCompactor.plan/planClass/selectDirs, CompactBlockMetas, LeveledCompactor.Write (hint copy from base), inOrderBlocksMaxTime.",
-		NotCover: "the alignment arithmetic itself (t0 is checked by form, not evaluated), the tombstone ratio rule, convergence of the plan/compact loop.",
-		Run:      runC08,
+		Note:           "Trusted: go/packages, go/types, go/cfg; rule tables in checker/c08.go.",
+		Covers:         "LeveledCompactor.plan/planClass/selectDirs, CompactBlockMetas, LeveledCompactor.Write (hint copy from base), inOrderBlocksMaxTime.",
+		NotCover:       "the alignment arithmetic itself (t0 is checked by form, not evaluated), the tombstone ratio rule, convergence of the plan/compact loop.",
+		Run:            runC08,
 		MinObligations: 20,
 	})
 }
@@ -167,7 +167,9 @@ func runC08(c *eng.Ctx) {
 	pc := c.Fn("tsdb:LeveledCompactor.planClass")
 	overlap := p.Call("tsdb:LeveledCompactor.selectOverlappingDirs")
 	sel := p.Call("tsdb:LeveledCompactor.selectDirs")
-	dropNewest := eng.AssignVarVal("dms", "dms[:len(dms)-1]", func(g *eng.Graph, e ast.Expr) bool { return strings.ReplaceAll(eng.ExprString(e), " ", "") == "dms[:len(dms)-1]" })
+	dropNewest := eng.AssignVarVal("dms", "dms[:len(dms)-1]", func(g *eng.Graph, e ast.Expr) bool {
+		return strings.ReplaceAll(eng.ExprString(e), " ", "") == "dms[:len(dms)-1]"
+	})
 	pc.Chain("R3", p.Call("slices:SortFunc"), overlap, dropNewest, sel)
 	pc.Only("R3", sel, "chooses among the blocks without the newest one", func(l eng.Loc) bool { a := eng.CallArgsText(l); return len(a) == 1 && a[0] == "dms" })
 	sd := c.Fn("tsdb:LeveledCompactor.selectDirs")
